@@ -1,4 +1,6 @@
 """C08  Sampling-rate and scale_by_freq normalisation is uniform."""
+import zlib
+
 import numpy as np
 
 import proto
@@ -10,11 +12,26 @@ TRUSTED_BASE = [
     "class glue correspondence: the raw two-sided unscaled estimate is taken from the functional API of the implementation "
     "(each functional estimator is tied to the model under its own property) and the model applies the class glue "
     "(slice / double / reverse, then scale() once with df = sampling/NFFT)",
+    "pminvar (kind mvglue): the raw estimate is NOT taken from the implementation: the model's own minimum-variance estimator "
+    "(Burg model, psi sequence, sampling / Re FFT psi) computes it from the data and the sampling frequency, the model's class glue "
+    "folds / scales it; float mode rtol 1e-7 (the tolerance of the minvar correspondence of C16)",
+    "option variants (kind opts): the raw estimate comes from the functional API called with the same option "
+    "(aryule(norm=), arburg(criteria=), pmtm(e=, v=), music(threshold=), ev(criteria=)); Periodogram(detrend=) is oracle-only",
+    "numpy.hamming / hanning / blackman / ones are the independent window references of the speriodogram scaling oracle",
 ]
 PARTIAL = []
-ASSUMPTIONS = ["pi is an abstract positive constant in the theorems; 2*pi = 6.283185307179586 in the correspondence"]
-RULE = ("all 14 estimator class variants x real/complex data x NFFT in {None, nextpow2, even, odd} x sampling in (1e-2, 1e5) x "
-        "scale_by_freq in {False, True}; arma2psd with random real/complex/mixed-dtype A, B (incl. None), rho, T, NFFT > max(len)")
+ASSUMPTIONS = ["pi is an abstract positive constant in the theorems; 2*pi = 6.283185307179586 in the correspondence",
+               "pminvar is not named in the statement's two families: its estimate is sampling / (e^H R^-1 e) (property C16), so with scaling "
+               "off a sampling change by c MULTIPLIES it by c; the oracle asserts exactly that",
+               "scale_by_freq 'on' is the Python bool True only (quantifier: {False, True}); complex data has no one-sided representation "
+               "(get_converted_psd / sides = 'onesided' are documented to be rejected there and are not generated)"]
+RULE = ("all 14 estimator class variants x real/complex data x NFFT in {None, nextpow2, even, odd, below N} x N in {8, 9, 30, 31, 32, 40, 64} x "
+        "sampling in (1e-2, 1e5) (float and int) x scale_by_freq in {False, True}, given as constructor keyword, by attribute assignment "
+        "after a computed psd, with repeated explicit calls, and read through sides / get_converted_psd; option variants (pyule norm, "
+        "pburg criteria, MultiTapering(e, v), pmusic/pev NSIG=None with threshold / criteria, Periodogram detrend); speriodogram 1-D / 2-D, "
+        "detrend on/off, four windows, NFFT below / at / above N and default; arma2psd with random real/complex/mixed-dtype A, B "
+        "(ndarray float/complex/int, list, tuple, empty, None), int/float rho, T incl. 1e-6 / 1e5, keyword / positional / default NFFT, "
+        "NFFT > max(len) incl. the boundary max(len)+1, len up to 50")
 
 
 def c(v):
@@ -49,7 +66,121 @@ def oracle_a2p(p):
     return []
 
 
+# arma2psd, other input forms.  The parameters hold plain arrays (or None) plus `form`: how they are handed to the function.
+#   form = "<A-form>/<B-form>/<call>"; A-form, B-form in {array, list, tuple}; call in {kw, pos, default, none}
+#   (default: NFFT omitted -> 4096; none: NFFT=None -> 4096; both are oracle-only, the model's DFT is too slow at 4096)
+
+def _as_form(v, form):
+    if v is None or form == "array":
+        return v
+    items = np.asarray(v).tolist()          # Python int / float / complex scalars
+    return items if form == "list" else tuple(items)
+
+
+def _call_a2p_form(p):
+    fa, fb, call = p["form"].split("/")
+    A, B = _as_form(p["A"], fa), _as_form(p["B"], fb)
+    f = C.sp().arma2psd
+    if call == "pos":
+        return np.asarray(f(A, B, p["rho"], p["T"], p["nfft"]))
+    if call == "default":
+        return np.asarray(f(A, B, rho=p["rho"], T=p["T"]))
+    if call == "none":
+        return np.asarray(f(A=A, B=B, rho=p["rho"], T=p["T"], NFFT=None))
+    return np.asarray(f(A=A, B=B, rho=p["rho"], T=p["T"], NFFT=p["nfft"]))
+
+
+def impl_a2pform(p):
+    return [_call_a2p_form(p)]
+
+
+def model_a2pform(p):
+    if p["form"].split("/")[2] in ("default", "none"):
+        return None
+    A, B = p["A"], p["B"]
+    return ("F", proto.request("arma2psd", "F", [p["nfft"], 0 if A is None else 1, 0 if B is None else 1],
+                               [np.asarray(A, dtype=complex) if A is not None else [],
+                                np.asarray(B, dtype=complex) if B is not None else [], [float(p["rho"])], [float(p["T"])]]))
+
+
+def oracle_a2pform(p):
+    A, B, rho, T = p["A"], p["B"], p["rho"], p["T"]
+    nfft = 4096 if p["form"].split("/")[2] in ("default", "none") else p["nfft"]
+    got = _call_a2p_form(p)
+    k = np.arange(nfft)
+    z = np.exp(-2j * np.pi * k / nfft)
+    Af = np.ones(nfft, dtype=complex)
+    Bf = np.ones(nfft, dtype=complex)
+    for i in range(0 if A is None else len(A)):
+        Af = Af + complex(A[i]) * z ** (i + 1)
+    for i in range(0 if B is None else len(B)):
+        Bf = Bf + complex(B[i]) * z ** (i + 1)
+    ref = float(rho) / float(T) * np.abs(Bf) ** 2 / np.abs(Af) ** 2
+    if got.shape != ref.shape or np.iscomplexobj(got) or rel(got, ref) > 1e-9:
+        return ["arma2psd(%s; A %s, B %s, rho=%r, T=%r, NFFT=%d) != (rho/T)|B|^2/|A|^2 on k/NFFT: %s" % (
+            p["form"], "None" if A is None else "%s[%d]" % (np.asarray(A).dtype, len(A)),
+            "None" if B is None else "%s[%d]" % (np.asarray(B).dtype, len(B)), rho, T, nfft,
+            "%.2e" % rel(got, ref) if got.shape == ref.shape else "length %d" % got.size)]
+    return []
+
+
 # ---- class glue + scaling ----------------------------------------------------------------------------
+
+SIDES = ("twosided", "centerdc", "onesided")
+
+
+def close(a, b, tol=1e-10):
+    """element-wise: every |a_k - b_k| <= tol |b_k| (the relations checked with it are one scalar multiplication per bin)"""
+    a, b = np.asarray(a), np.asarray(b)
+    if a.shape != b.shape or not (np.all(np.isfinite(a)) and np.all(np.isfinite(b))):
+        return False
+    return bool(np.all(np.abs(a - b) <= tol * np.abs(b)))
+
+
+def worst(a, b):
+    a, b = np.asarray(a), np.asarray(b)
+    if a.shape != b.shape:
+        return "lengths %s / %s" % (a.shape, b.shape)
+    with np.errstate(all="ignore"):
+        r = a / b
+    r = r[np.isfinite(r)]
+    return "observed / expected in [%.6g, %.6g]" % (float(np.min(r)), float(np.max(r))) if r.size else "no finite ratio"
+
+
+def samp_factor(cls, cfac):
+    """estimate(c * sampling) / estimate(sampling) with scaling off: 1/c for the AR / MA / ARMA model spectra, 1 for periodogram,
+    correlogram, multitaper and subspace estimates, c for the minimum-variance estimate (sampling / (e^H R^-1 e), C16)"""
+    base = cls.split(":")[0]
+    if base in C.AR_FAMILY:
+        return 1.0 / cfac
+    if base == "pminvar":
+        return float(cfac)
+    if base in C.FOURIER_FAMILY or base.startswith("MT"):
+        return 1.0
+    raise ValueError(cls)
+
+
+def axis_bins(sd, nfft):
+    if sd == "twosided":
+        return np.arange(nfft)
+    if sd == "centerdc":
+        return np.arange(nfft) - nfft // 2
+    return np.arange(nfft // 2 + 1 if nfft % 2 == 0 else (nfft + 1) // 2)
+
+
+def check_axes(tag, o, isreal, nfft, fs):
+    """absolute frequency axes: bin * sampling / NFFT for the three representations, and the default one next to the psd"""
+    out = []
+    for sd in SIDES + (None,):
+        f = np.asarray(o.frequencies(sd) if sd else o.frequencies(), dtype=float)
+        ref = axis_bins(sd or ("onesided" if isreal else "twosided"), nfft) * float(fs) / nfft
+        if f.shape != ref.shape or not np.all(np.abs(f - ref) <= 1e-12 * abs(float(fs))):
+            out.append("%s: frequencies(%s) at sampling=%r, NFFT=%d is not bin*sampling/NFFT (%s)" % (
+                tag, repr(sd) if sd else "", fs, nfft,
+                "length %d, expected %d" % (f.size, ref.size) if f.shape != ref.shape else
+                "max deviation %.3e" % float(np.max(np.abs(f - ref)))))
+    return out
+
 
 def impl_glue(p):
     o = C.make(p["cls"], p["x"], p["nfft"], p["fs"], p["scale"], p.get("cfg"))
@@ -92,33 +223,336 @@ def oracle_glue(p):
     elif cls in C.FOURIER_FAMILY:
         if a2.shape != a0.shape or rel(a2, a0) > 1e-10:
             out.append("%s: values change with the sampling frequency although scaling is off" % cls)
+    elif cls == "pminvar":
+        # minimum variance: sampling / (e^H R^-1 e)  (C16) -> multiplied by the sampling factor
+        if a2.shape != a0.shape or rel(a2, a0 * cfac) > 1e-10:
+            out.append("pminvar: the minimum-variance estimate sampling/(e^H R^-1 e) is not multiplied by the sampling factor "
+                       "(ratio %.6g, expected %.6g)" % (float(np.median(a2 / a0)) if a2.shape == a0.shape else float("nan"), cfac))
+    else:
+        out.append("%s: no sampling rule known to the oracle" % cls)
+    # every class, element-wise (the sampling dependence is one scalar factor per bin), scaled and unscaled
+    sf = samp_factor(cls, cfac)
+    if not close(a2, a0 * sf):
+        out.append("%s: bin-wise, estimate(%g*sampling) is not %.6g * estimate(sampling) with scaling off (%s)" % (
+            cls, cfac, sf, worst(a2, a0 * sf)))
+    a3 = np.asarray(C.make(cls, x, nfft_arg, cfac * fs, True, p.get("cfg")).psd)
+    if not close(a3, a0 * sf * (C.TWO_PI / (cfac * fs / nfft))):
+        out.append("%s: scaled estimate at %g*sampling is not the unscaled one at sampling times %.6g * 2*pi/df' (%s)" % (
+            cls, cfac, sf, worst(a3, a0 * sf * (C.TWO_PI / (cfac * fs / nfft)))))
+    # absolute frequency axes in the three representations, before and after the sampling change
+    isreal = np.isrealobj(x)
+    out += check_axes(cls, o0, isreal, nfft, fs)
+    out += check_axes(cls, o1, isreal, nfft, fs)
+    out += check_axes(cls, o2, isreal, nfft, cfac * fs)
+    if a0.shape != np.shape(f0):
+        out.append("%s: default frequencies() has %d points, psd %d" % (cls, np.size(f0), a0.size))
     return out
+
+
+# pminvar with the raw estimate computed by the model itself (Burg -> psi -> sampling / Re FFT psi), then the model's class glue
+
+def impl_mvglue(p):
+    o = C.sp().pminvar(p["x"], p["order"], NFFT=p["nfft"], sampling=p["fs"], scale_by_freq=p["scale"])
+    return [np.asarray(o.psd)]
+
+
+def model_mvglue(p):
+    x = np.asarray(p["x"])
+    nfft = C.resolved_nfft(x, p["nfft"])
+    rep = proto.run_driver([proto.request("minvarx", "F", [p["order"], nfft], [x, [p["fs"]]])])
+    st, val = proto.parse_reply(rep[0], "F")
+    if st != "ok":
+        raise RuntimeError("model minvar rejects the input: %s" % val)
+    return C.glue_request("pminvar", val[0], np.isrealobj(x), nfft, p["scale"], p["fs"])
+
+
+def oracle_mvglue(p):
+    """statement on pminvar alone: df, one scaling, sampling factor c (element-wise)"""
+    x = np.asarray(p["x"])
+    nfft = C.resolved_nfft(x, p["nfft"])
+    s = C.sp()
+    fs, cfac = p["fs"], p["c"]
+
+    def mk(f, sc):
+        return s.pminvar(x, p["order"], NFFT=p["nfft"], sampling=f, scale_by_freq=sc)
+    return check_class("pminvar(order %d)" % p["order"], "pminvar", mk, np.isrealobj(x), nfft, fs, cfac)
+
+
+def check_class(tag, cls, mk, isreal, nfft, fs, cfac):
+    """the statement for one way `mk(sampling, scale_by_freq)` of building an estimator object"""
+    out = []
+    o0, o1, o2, o3 = mk(fs, False), mk(fs, True), mk(cfac * fs, False), mk(cfac * fs, True)
+    a0, a1, a2, a3 = [np.array(o.psd) for o in (o0, o1, o2, o3)]
+    df = fs / nfft
+    for o, d in ((o0, df), (o1, df), (o2, cfac * df), (o3, cfac * df)):
+        if abs(o.df - d) > 1e-12 * d:
+            out.append("%s: df = %r, expected sampling/NFFT = %r (NFFT=%d)" % (tag, o.df, d, nfft))
+    n_exp = C.expected_len(isreal, nfft)
+    if a0.shape != (n_exp,):
+        out.append("%s: psd has %s values, expected %d (NFFT=%d, %s data)" % (tag, a0.shape, n_exp, nfft, "real" if isreal else "complex"))
+    if not close(a1, a0 * (C.TWO_PI / df)):
+        out.append("%s (NFFT=%d, sampling=%g): scale_by_freq=True is not the unscaled estimate times 2*pi/df once (%s)" % (
+            tag, nfft, fs, worst(a1, a0 * (C.TWO_PI / df))))
+    sf = samp_factor(cls, cfac)
+    if not close(a2, a0 * sf):
+        out.append("%s: estimate(%g*sampling) is not %.6g * estimate(sampling) with scaling off (%s)" % (tag, cfac, sf, worst(a2, a0 * sf)))
+    if not close(a3, a0 * sf * (C.TWO_PI / (cfac * df))):
+        out.append("%s: scaled estimate at %g*sampling is not %.6g * 2*pi/df' times the unscaled one (%s)" % (
+            tag, cfac, sf, worst(a3, a0 * sf * (C.TWO_PI / (cfac * df)))))
+    out += check_axes(tag, o0, isreal, nfft, fs)
+    out += check_axes(tag, o3, isreal, nfft, cfac * fs)
+    return out
+
+
+# ---- entry points other than constructor keywords --------------------------------------------------------
+
+def oracle_entry(p):
+    """scale_by_freq / sampling given by attribute assignment after a computed psd, repeated explicit calls, reads through
+    sides / get_converted_psd, integer sampling: always the unscaled estimate times 2*pi/df exactly once"""
+    x = np.asarray(p["x"])
+    cls, nfft_arg, fs, cfac, cfg = p["cls"], p["nfft"], p["fs"], p["c"], p.get("cfg")
+    isreal = np.isrealobj(x)
+    nfft = C.resolved_nfft(x, nfft_arg)
+    df = fs / nfft
+    fac = C.TWO_PI / df
+    sf = samp_factor(cls, cfac)
+    tag = "%s (%s, NFFT=%s, sampling=%g)" % (cls, "real" if isreal else "complex", nfft_arg, fs)
+    out = []
+
+    def mk(f, sc):
+        return C.make(cls, x, nfft_arg, f, sc, cfg)
+
+    def want(what, got, ref):
+        if not close(got, ref):
+            out.append("%s: %s (%s)" % (tag, what, worst(got, ref)))
+
+    a0 = np.array(mk(fs, False).psd)          # fresh, unscaled: the reference of every clause below
+    want("fresh scale_by_freq=True object is not the unscaled estimate times 2*pi/df", np.array(mk(fs, True).psd), a0 * fac)
+    # (a) scale_by_freq assigned after a computed psd, toggled back and forth
+    o = mk(fs, False)
+    o.psd
+    o.scale_by_freq = True
+    want("scale_by_freq = True assigned after a computed psd: psd is not the unscaled estimate times 2*pi/df once", np.array(o.psd), a0 * fac)
+    o.scale_by_freq = False
+    want("scale_by_freq = False assigned after a scaled psd: psd is not the unscaled estimate", np.array(o.psd), a0)
+    o.scale_by_freq = True
+    want("scale_by_freq toggled True/False/True: psd is not the unscaled estimate times 2*pi/df once", np.array(o.psd), a0 * fac)
+    o = mk(fs, True)
+    o.psd
+    o.scale_by_freq = False
+    want("scale_by_freq = False assigned to a scaled object: psd is not the unscaled estimate", np.array(o.psd), a0)
+    # (b) sampling assigned after a computed psd
+    for sc in (False, True):
+        o = mk(fs, sc)
+        o.psd
+        o.sampling = cfac * fs
+        d = np.array(o.psd)
+        if abs(o.df - cfac * df) > 1e-12 * cfac * df:
+            out.append("%s: sampling = %g*sampling assigned after a computed psd: df = %r, expected %r" % (tag, cfac, o.df, cfac * df))
+        want("sampling = %g*sampling assigned after a computed psd (scale_by_freq=%s): psd is not %.6g%s times the unscaled estimate" % (
+            cfac, sc, sf, " * 2*pi/df'" if sc else ""), d, a0 * sf * (C.TWO_PI / (cfac * df) if sc else 1.0))
+        out += check_axes(tag + " after sampling assignment", o, isreal, nfft, cfac * fs)
+        o.sampling = fs
+        want("sampling assigned back (scale_by_freq=%s): psd is not the original estimate" % sc, np.array(o.psd), a0 * (fac if sc else 1.0))
+    # (c) explicit repeated calls before / after reading psd
+    for sc in (False, True):
+        o = mk(fs, sc)
+        o()
+        o()
+        o.run()
+        want("o(); o(); o.run(); o.psd (scale_by_freq=%s) is not the unscaled estimate%s" % (sc, " times 2*pi/df once" if sc else ""),
+             np.array(o.psd), a0 * (fac if sc else 1.0))
+        o = mk(fs, sc)
+        o.psd
+        o()
+        want("o.psd; o(); o.psd (scale_by_freq=%s) is not the unscaled estimate%s" % (sc, " times 2*pi/df once" if sc else ""),
+             np.array(o.psd), a0 * (fac if sc else 1.0))
+    # (d) every representation of the scaled object is 2*pi/df times the same representation of the unscaled one, bin-wise
+    for sd in (SIDES if isreal else SIDES[:2]):
+        c0 = np.array(mk(fs, False).get_converted_psd(sd))
+        c1 = np.array(mk(fs, True).get_converted_psd(sd))
+        want("get_converted_psd(%r) of the scaled object is not 2*pi/df times that of the unscaled one" % sd, c1, c0 * fac)
+        p0, p1 = mk(fs, False), mk(fs, True)
+        p0.psd
+        p1.psd
+        p0.sides = sd
+        p1.sides = sd
+        want("sides = %r: psd of the scaled object is not 2*pi/df times that of the unscaled one" % sd, np.array(p1.psd), np.array(p0.psd) * fac)
+        want("sides = %r and get_converted_psd(%r) differ on the unscaled object" % (sd, sd), np.array(p0.psd), c0)
+        if c0.shape != np.shape(p0.frequencies()):
+            out.append("%s: sides = %r: psd has %d values, frequencies() %d" % (tag, sd, c0.size, np.size(p0.frequencies())))
+    # (e) integer sampling frequency (the documented sampling=1024)
+    ifs = p["ifs"]
+    b0 = np.array(mk(float(ifs), False).psd)
+    oi0, oi1 = mk(int(ifs), False), mk(int(ifs), True)
+    want("integer sampling=%d, scaling off: not the estimate at sampling=%d.0" % (ifs, ifs), np.array(oi0.psd), b0)
+    want("integer sampling=%d: scale_by_freq=True is not the unscaled estimate times 2*pi*NFFT/sampling" % ifs,
+         np.array(oi1.psd), b0 * (C.TWO_PI / (float(ifs) / nfft)))
+    want("integer sampling=%d: unscaled estimate is not %.6g times the one at sampling=%g" % (ifs, samp_factor(cls, ifs / fs), fs),
+         b0, a0 * samp_factor(cls, float(ifs) / fs), )
+    if abs(oi1.df - float(ifs) / nfft) > 1e-12 * ifs / nfft:
+        out.append("%s: integer sampling=%d: df = %r, expected %r" % (tag, ifs, oi1.df, float(ifs) / nfft))
+    out += check_axes(tag + " integer sampling", oi1, isreal, nfft, ifs)
+    return out
+
+
+# ---- option values other than the defaults ---------------------------------------------------------------
+
+OPTS = (["pyule:biased", "pyule:unbiased"] + ["pburg:" + k for k in ("AIC", "AICc", "KIC", "FPE", "AKICc", "MDL")] +
+        ["MT-unity:ev", "MT-eigen:ev", "MT-adapt:ev", "pmusic:thr", "pev:mdl", "pmusic:mdl", "pev:thr", "Periodogram:mean", "Periodogram:linear"])
+
+
+def opt_make(opt, x, nfft, fs, scale):
+    s = C.sp()
+    cls, o = opt.split(":")
+    kw = dict(NFFT=nfft, sampling=fs, scale_by_freq=scale)
+    if cls == "pyule":
+        return s.pyule(x, 4, norm=o, **kw)
+    if cls == "pburg":
+        return s.pburg(x, 8, criteria=o, **kw)
+    if cls.startswith("MT-"):
+        tap, eig = s.dpss(len(x), 2.5, 4)
+        return s.MultiTapering(x, e=eig, v=tap, method=cls[3:], **kw)
+    if cls in ("pmusic", "pev"):
+        f = s.pmusic if cls == "pmusic" else s.pev
+        return f(x, 6, threshold=1.5, **kw) if o == "thr" else f(x, 6, criteria="mdl", **kw)
+    if cls == "Periodogram":
+        return s.Periodogram(x, detrend=o, **kw)
+    raise ValueError(opt)
+
+
+def opt_raw(opt, x, nfft, fs):
+    """raw two-sided unscaled estimate through the functional API called with the same option (None: oracle only)"""
+    s = C.sp()
+    cls, o = opt.split(":")
+    if cls == "pyule":
+        a, rho, k = s.aryule(x, 4, norm=o)
+        return np.asarray(s.arma2psd(A=a, rho=rho, T=fs, NFFT=nfft))
+    if cls == "pburg":
+        a, rho, k = s.arburg(x, 8, o)
+        return np.asarray(s.arma2psd(A=a, rho=rho, T=fs, NFFT=nfft))
+    if cls.startswith("MT-"):
+        tap, eig = s.dpss(len(x), 2.5, 4)
+        Sk, w, e = s.pmtm(x, e=eig, v=tap, NFFT=nfft, method=cls[3:], show=False)
+        SkA = np.abs(np.asarray(Sk)) ** 2
+        w = np.asarray(w)
+        return np.mean(SkA.T * w, axis=1) if cls == "MT-adapt" else np.mean(SkA * w, axis=0)
+    if cls in ("pmusic", "pev"):
+        f = s.music if cls == "pmusic" else s.ev
+        kw = {"threshold": 1.5} if o == "thr" else {"criteria": "mdl"}
+        return np.asarray(f(x, 6, NSIG=None, NFFT=nfft, **kw)[0])
+    return None
+
+
+def impl_opts(p):
+    return [np.asarray(opt_make(p["opt"], p["x"], p["nfft"], p["fs"], p["scale"]).psd)]
+
+
+def model_opts(p):
+    x = np.asarray(p["x"])
+    nfft = C.resolved_nfft(x, p["nfft"])
+    raw = opt_raw(p["opt"], x, nfft, p["fs"])
+    if raw is None:
+        return None
+    return C.glue_request(p["opt"].split(":")[0], raw, np.isrealobj(x), nfft, p["scale"], p["fs"])
+
+
+def oracle_opts(p):
+    x = np.asarray(p["x"])
+    nfft = C.resolved_nfft(x, p["nfft"])
+    return check_class("%s, %s data" % (p["opt"], "real" if np.isrealobj(x) else "complex"), p["opt"],
+                       lambda f, sc: opt_make(p["opt"], x, p["nfft"], f, sc), np.isrealobj(x), nfft, p["fs"], p["c"])
+
+
+def _fs_input(p):
+    """the data handed to speriodogram: the 1-D record, or a 2-D matrix whose columns are records derived from it"""
+    x = np.asarray(p["x"])
+    nc = p.get("ncol", 0)
+    if not nc:
+        return x
+    cols = [x, 2 * x[::-1], x + 1, -0.5 * x, x * x][:nc]
+    return np.stack(cols, axis=1)
+
+
+NP_WINDOWS = {"hamming": np.hamming, "hann": np.hanning, "blackman": np.blackman, "rectangular": np.ones}
 
 
 def oracle_funcscale(p):
     """speriodogram(scale_by_freq=True) and FourierSpectrum(...).periodogram(): the unscaled estimate times 2*pi/df once"""
     sp = C.sp()
     x = np.asarray(p["x"])
-    nfft, fs = p["nfft"], p["fs"]
+    X = _fs_input(p)
+    N = len(x)
+    nfft_arg, fs = p["nfft"], p["fs"]
+    nfft = N if nfft_arg is None else nfft_arg
+    win, det = p.get("win", "hamming"), p.get("detrend", False)
     out = []
-    a0 = np.asarray(sp.speriodogram(x, NFFT=nfft, detrend=False, scale_by_freq=False, sampling=fs, window="hamming"))
-    a1 = np.asarray(sp.speriodogram(x, NFFT=nfft, detrend=False, scale_by_freq=True, sampling=fs, window="hamming"))
+    kw = dict(detrend=det, sampling=fs, window=win)
+    if nfft_arg is not None or not p.get("defaults"):
+        kw["NFFT"] = nfft_arg
+    a0 = np.asarray(sp.speriodogram(X, scale_by_freq=False, **kw))
+    if p.get("defaults"):
+        a1 = np.asarray(sp.speriodogram(X, **kw))         # scale_by_freq omitted: the documented default is True
+    else:
+        a1 = np.asarray(sp.speriodogram(X, scale_by_freq=True, **kw))
     fac = C.TWO_PI / (fs / nfft)
+    what = "N=%d, %s, NFFT=%s, sampling=%g, window=%s, detrend=%s%s" % (
+        N, "1-D" if X.ndim == 1 else "%dx%d matrix" % X.shape, nfft_arg, fs, win, det, ", scale_by_freq / NFFT defaults" if p.get("defaults") else "")
     if a0.shape != a1.shape or rel(a1, a0 * fac) > 1e-10:
         out.append("speriodogram(scale_by_freq=True, N=%d, NFFT=%d, sampling=%g) is not the unscaled periodogram times 2*pi/df "
                    "(observed/expected factor %.6f)" % (len(x), nfft, fs, float(np.median(a1 / a0)) / fac if a0.shape == a1.shape else float("nan")))
-    f0 = sp.FourierSpectrum(x, sampling=fs, NFFT=nfft, window="hamming", scale_by_freq=False)
+    if not close(a1, a0 * fac):
+        out.append("speriodogram(%s): scaled is not unscaled times 2*pi/df bin-wise (%s)" % (what, worst(a1, a0 * fac)))
+    # changing the sampling frequency: unscaled values unchanged, scaled ones follow 2*pi*NFFT/sampling
+    cfac = p.get("c", 4.0)
+    kw2 = dict(kw, sampling=cfac * fs)
+    if not close(np.asarray(sp.speriodogram(X, scale_by_freq=False, **kw2)), a0, 1e-12):
+        out.append("speriodogram(%s): unscaled values change with the sampling frequency" % what)
+    if not close(np.asarray(sp.speriodogram(X, scale_by_freq=True, **kw2)), a0 * fac / cfac):
+        out.append("speriodogram(%s): scaled values at %g*sampling are not the unscaled ones times 2*pi/df'" % (what, cfac))
+    # independent reference of the scaled estimate: numpy window, numpy fft, |.|^2 / N, times 2*pi*NFFT/sampling
+    if win in NP_WINDOWS:
+        w = NP_WINDOWS[win](N)
+        cols = X.reshape(N, -1)
+        ref = []
+        for j in range(cols.shape[1]):
+            v = cols[:, j] * w
+            v = v - (np.mean(cols[:, j]) if det else 0)
+            F = np.fft.rfft(v, nfft) if np.isrealobj(X) else np.fft.fft(v, nfft)
+            ref.append(np.abs(F) ** 2 / N * (C.TWO_PI * nfft / fs))
+        ref = ref[0] if X.ndim == 1 else np.stack(ref, axis=1)
+        if a1.shape != ref.shape or rel(a1, ref) > 1e-9:
+            out.append("speriodogram(%s, scale_by_freq=True) is not |FFT((x*w) - mean)|^2/N * 2*pi*NFFT/sampling (%s)" % (
+                what, "%.2e" % rel(a1, ref) if a1.shape == ref.shape else "shape %s, expected %s" % (a1.shape, ref.shape)))
+    if X.ndim != 1:
+        return out
+    fkw = {} if (nfft_arg is None and p.get("defaults")) else {"NFFT": nfft_arg}
+    f0 = sp.FourierSpectrum(x, sampling=fs, window=win, scale_by_freq=False, **fkw)
     f0.periodogram()
-    f1 = sp.FourierSpectrum(x, sampling=fs, NFFT=nfft, window="hamming", scale_by_freq=True)
+    if p.get("defaults"):
+        f1 = sp.FourierSpectrum(x, sampling=fs, window=win, **fkw)      # FourierSpectrum: scale_by_freq defaults to True
+    else:
+        f1 = sp.FourierSpectrum(x, sampling=fs, window=win, scale_by_freq=True, **fkw)
     f1.periodogram()
     b0, b1 = np.asarray(f0.psd), np.asarray(f1.psd)
     if b0.shape != b1.shape or rel(b1, b0 * fac) > 1e-10:
         out.append("FourierSpectrum.periodogram() with scale_by_freq=True is not the unscaled estimate times 2*pi/df (N=%d NFFT=%d)" % (len(x), nfft))
+    if not close(b1, b0 * fac):
+        out.append("FourierSpectrum.periodogram() (%s): scaled is not unscaled times 2*pi/df bin-wise (%s)" % (what, worst(b1, b0 * fac)))
     return out
 
 
 def TWO_PI_over(df):
     return C.TWO_PI / df
+
+
+def _crc(*arrs):
+    h = 0
+    for a in arrs:
+        if a is not None:
+            a = np.asarray(a)
+            h = zlib.crc32(repr(a.tolist()).encode() if a.dtype == object else np.ascontiguousarray(a).tobytes(), h)
+    return h & 0xFFFFFF
 
 
 def _key(p):
@@ -129,14 +563,47 @@ def _key(p):
                                 None if p["B"] is None else np.asarray(p["B"]).tobytes().hex()[:16], p["rho"])
 
 
+def _key_x(p):
+    x = np.asarray(p["x"])
+    return "|".join(str(v) for v in (p.get("cls", p.get("opt", p.get("order"))), len(x), p["nfft"], p["fs"], p.get("scale"), p.get("c"),
+                                     p.get("cfg"), p.get("ifs"), np.iscomplexobj(x), _crc(x)))
+
+
+def _nfft_tag(p):
+    n, N = p["nfft"], len(p["x"])
+    if not isinstance(n, int):
+        return "nfft:%s" % n
+    return "nfft:%s%s" % ("odd" if n % 2 else "even", "<N" if n < N else "")
+
+
 KINDS = {
-    "funcscale": {"oracle": oracle_funcscale, "key": lambda p: "fs|%d|%d|%g" % (len(p["x"]), p["nfft"], p["fs"]), "tags": lambda p: ["funcscale"]},
+    "funcscale": {"oracle": oracle_funcscale,
+                  "key": lambda p: "fs|%d|%s|%g|%s|%s|%s|%s|%d" % (len(p["x"]), p["nfft"], p["fs"], p.get("win"), p.get("detrend"), p.get("ncol"),
+                                                                  p.get("defaults"), _crc(p["x"])),
+                  "tags": lambda p: ["funcscale", "funcscale:%s" % ("2-D" if p.get("ncol") else "1-D"), "funcscale:win-%s" % p.get("win", "hamming"),
+                                     "funcscale:detrend-%s" % p.get("detrend", False),
+                                     "funcscale:nfft-%s" % ("default" if p["nfft"] is None else "<N" if p["nfft"] < len(p["x"]) else ">=N")]},
     "arma2psd": {"impl": impl_a2p, "model": model_a2p, "oracle": oracle_a2p, "rtol": 1e-9, "atol": 1e-300, "key": _key,
                  "tags": lambda p: ["a2p:A-%s/B-%s" % ("None" if p["A"] is None else np.asarray(p["A"]).dtype.kind,
                                                       "None" if p["B"] is None else np.asarray(p["B"]).dtype.kind)]},
+    "a2pform": {"impl": impl_a2pform, "model": model_a2pform, "oracle": oracle_a2pform, "rtol": 1e-9, "atol": 1e-300,
+                "key": lambda p: "a2pf|%s|%s|%r|%r|%d" % (p["form"], p["nfft"], p["rho"], p["T"], _crc(p["A"], p["B"])),
+                "tags": lambda p: ["a2pform:" + p["form"],
+                                   "a2pform:A-%s/B-%s" % ("None" if p["A"] is None else np.asarray(p["A"]).dtype.kind,
+                                                         "None" if p["B"] is None else np.asarray(p["B"]).dtype.kind),
+                                   "a2pform:rho-%s/T-%s" % (type(p["rho"]).__name__, type(p["T"]).__name__)] + (
+                    ["a2pform:nfft=maxlen+1"] if p["nfft"] == max(0 if p["A"] is None else len(p["A"]), 0 if p["B"] is None else len(p["B"])) + 1 else [])},
     "glue": {"impl": impl_glue, "model": model_glue, "oracle": oracle_glue, "rtol": 1e-9, "atol": 1e-300, "key": _key,
              "tags": lambda p: ["cls:" + p["cls"], "complex" if np.iscomplexobj(p["x"]) else "real", "nfft:%s" % (
-                 p["nfft"] if not isinstance(p["nfft"], int) else ("odd" if p["nfft"] % 2 else "even")), "scale:%s" % p["scale"]]},
+                 p["nfft"] if not isinstance(p["nfft"], int) else ("odd" if p["nfft"] % 2 else "even")), "scale:%s" % p["scale"],
+                 "N:%d" % len(p["x"])] + (["nfft<N", "nfft<N:" + p["cls"]] if C.resolved_nfft(p["x"], p["nfft"]) < len(p["x"]) else [])},
+    "mvglue": {"impl": impl_mvglue, "model": model_mvglue, "oracle": oracle_mvglue, "rtol": 1e-7, "atol": 1e-300, "key": _key_x,
+               "tags": lambda p: ["mvglue", "mvglue:" + ("complex" if np.iscomplexobj(p["x"]) else "real"), "mvglue:" + _nfft_tag(p),
+                                  "mvglue:scale-%s" % p["scale"]]},
+    "entry": {"oracle": oracle_entry, "key": _key_x,
+              "tags": lambda p: ["entry:" + p["cls"], "entry:" + ("complex" if np.iscomplexobj(p["x"]) else "real"), "entry:" + _nfft_tag(p)]},
+    "opts": {"impl": impl_opts, "model": model_opts, "oracle": oracle_opts, "rtol": 1e-9, "atol": 1e-300, "key": _key_x,
+             "tags": lambda p: ["opt:" + p["opt"], "opt:" + ("complex" if np.iscomplexobj(p["x"]) else "real"), "opt:" + _nfft_tag(p)]},
 }
 
 
@@ -189,7 +656,8 @@ def gen(rng, nrng, tier):
         x = C.test_data(nrng, N, cplx)
         nfft = [None, "nextpow2", 64, 45, 127, 48][(i // 2) % 6]
         fs = float(10 ** nrng.uniform(-2, 5))
-        q = {"cls": cls, "x": x, "nfft": nfft, "fs": fs, "scale": bool(i % 2), "c": float(nrng.choice([2.0, 250.0, 0.5]))}
+        # scale alternates with i, flipped every 28 cases: every class meets both values, real and complex, in the correspondence
+        q = {"cls": cls, "x": x, "nfft": nfft, "fs": fs, "scale": bool((i + i // 28) % 2), "c": float(nrng.choice([2.0, 250.0, 0.5]))}
         if (i // 7) % 2:
             q["cfg"] = C.random_cfg(nrng, cls, N, boundary=(i % 5 == 4))
             need = C.min_nfft(cls, N, q["cfg"])
@@ -198,3 +666,162 @@ def gen(rng, nrng, tier):
             elif not isinstance(nfft, int) and C.resolved_nfft(x, nfft) < need:
                 q["nfft"] = need
         yield ("glue", q)
+
+    thorough = tier != "quick"
+    # ---- NFFT below the record length (N = 40): AR / MA / ARMA, correlogram, minimum variance, subspace, periodogram, multitaper
+    for j, (cls, cfg, nffts) in enumerate(SMALL_NFFT):
+        for k, nfft in enumerate(nffts):
+            for cplx in (False, True):
+                for scale in ((False, True) if thorough else (bool((j + k + cplx) % 2),)):
+                    yield ("glue", {"cls": cls, "x": C.test_data(nrng, 40, cplx), "nfft": nfft, "fs": float(10 ** nrng.uniform(-2, 5)),
+                                    "scale": scale, "c": [2.0, 250.0, 0.5][(j + 2 * k + cplx) % 3], "cfg": dict(cfg)})
+    # ---- short records and records whose length is a power of two (nextpow2 == N), NFFT None / 'nextpow2'
+    pick = int(nrng.integers(0, 4))
+    cnt = 0
+    for iN, N in enumerate((8, 9, 32, 64)):
+        for ic, cls in enumerate(C.CLASSES):
+            for cplx in (False, True):
+                for im, nfft in enumerate((None, "nextpow2")):
+                    cnt += 1
+                    if not thorough and (iN + ic + 2 * cplx + im) % 4 != pick:
+                        continue
+                    for scale in ((False, True) if thorough else (bool((cnt // 5) % 2),)):
+                        yield ("glue", {"cls": cls, "x": C.test_data(nrng, N, cplx), "nfft": nfft, "fs": float(10 ** nrng.uniform(-2, 5)),
+                                        "scale": scale, "c": [0.5, 2.0, 250.0][cnt % 3], "cfg": dict(SMALL_CFG["MT" if cls.startswith("MT") else cls])})
+    # ---- pminvar against the model's own minimum-variance estimator (the dependence on the sampling frequency is the model's)
+    for i in range(16 if not thorough else 160):
+        cplx = bool(i % 2)
+        N = [40, 30, 31][(i // 2) % 3]
+        order = int(nrng.integers(2, min(N // 2, 8) + 1))
+        nfft = [64, 45, None, "nextpow2", 2 * order, 2 * order + 1, 127, 2 * order + 2][(i // 2) % 8]
+        yield ("mvglue", {"x": C.test_data(nrng, N, cplx), "order": order, "nfft": nfft, "fs": float(10 ** nrng.uniform(-2, 5)),
+                          "scale": bool((i // 4) % 2), "c": [2.0, 0.5, 250.0][(i // 3) % 3]})
+    # ---- entry points other than constructor keywords: 14 variants x real/complex x NFFT {64, 45} (+ None / nextpow2 / random cfg)
+    ifss = [1024, 1, 44100, 8000, 2, 99999, 48, 360]
+    k = 0
+    for rep in range(1 if not thorough else 4):
+        for cls in C.CLASSES:
+            for cplx in (False, True):
+                for nfft in (64, 45):
+                    k += 1
+                    N = 40 if rep == 0 else [30, 31, 40][k % 3]
+                    x = C.test_data(nrng, N, cplx)
+                    q = {"cls": cls, "x": x, "nfft": nfft if rep < 2 else [None, "nextpow2"][nfft % 2], "fs": float(10 ** nrng.uniform(-2, 5)),
+                         "c": [4.0, 0.5, 250.0, 2.0][(k // 2) % 4], "ifs": ifss[k % 8] if rep % 2 == 0 else int(nrng.integers(1, 100000))}
+                    if rep % 2:
+                        q["cfg"] = C.random_cfg(nrng, cls, N, boundary=(k % 5 == 4))
+                        if C.resolved_nfft(x, q["nfft"]) < C.min_nfft(cls, N, q["cfg"]):
+                            q["nfft"] = C.min_nfft(cls, N, q["cfg"])
+                    yield ("entry", q)
+    # ---- option values other than the defaults
+    k = 0
+    for rep in range(1 if not thorough else 4):
+        for io, opt in enumerate(OPTS):
+            for cplx in (False, True):
+                k += 1
+                N = 40 if rep < 2 else 31
+                nfft = [64, 45, None, "nextpow2"][(io + cplx + rep) % 2 + 2 * (rep % 2)]
+                yield ("opts", {"opt": opt, "x": C.test_data(nrng, N, cplx), "nfft": nfft, "fs": float(10 ** nrng.uniform(-2, 5)),
+                                "scale": bool((k // 2 + rep // 2) % 2), "c": [3.0, 0.5, 250.0][k % 3]})
+    # ---- speriodogram: 1-D / 2-D column matrices, detrend, four windows, NFFT below N / default / above N, default scale_by_freq
+    combos = 2 * 4 * 2 * 3 * 4
+    start = int(nrng.integers(0, combos))
+    for t in range(48 if not thorough else combos):
+        j = (start + 37 * t) % combos
+        cplx, j = bool(j % 2), j // 2
+        win, j = ["hamming", "hann", "rectangular", "blackman"][j % 4], j // 4
+        det, j = bool(j % 2), j // 2
+        ncol, j = [0, 3, 1][j % 3], j // 3
+        mode = j % 4
+        N = [30, 31, 40][t % 3]
+        q = {"x": C.test_data(nrng, N, cplx), "nfft": [16, None, N + 7, None][mode], "fs": float(10 ** nrng.uniform(-2, 5)), "win": win,
+             "detrend": det, "ncol": ncol, "c": [4.0, 0.5, 250.0][(t // 3) % 3]}
+        if mode == 3:
+            q["defaults"] = True
+        yield ("funcscale", q)
+    # ---- arma2psd: other input forms
+    yield from gen_a2pform(nrng, thorough)
+
+
+SMALL_NFFT = [("pburg", {"order": 4}, (16, 5)), ("pyule", {"order": 4}, (5, 6)), ("pcovar", {"order": 4}, (9, 5)), ("pmodcovar", {"order": 3}, (4, 7)),
+              ("parma", {"order": 3, "Q": 3, "lag": 8}, (4, 5)), ("pma", {"Q": 3, "M": 7}, (4, 5)), ("pminvar", {"order": 4}, (8, 9)),
+              ("pcorrelogram", {"lag": 5, "window": "hamming"}, (11, 12)), ("pmusic", {"order": 6, "nsig": 2}, (7, 8)),
+              ("pev", {"order": 6, "nsig": 2}, (8, 7)), ("Periodogram", {"window": "hann"}, (16, 15)), ("MT-unity", {"NW": 2.5, "k": 4}, (16, 15)),
+              ("MT-eigen", {"NW": 2.5, "k": 4}, (16, 15)), ("MT-adapt", {"NW": 2.5, "k": 4}, (16, 15))]
+SMALL_CFG = {"pmusic": {"order": 3, "nsig": 1}, "pev": {"order": 3, "nsig": 1}, "parma": {"order": 1, "Q": 1, "lag": 4}, "pma": {"Q": 1, "M": 3},
+             "pcorrelogram": {"lag": 3, "window": "hamming"}, "Periodogram": {"window": "hann"}, "MT": {"NW": 2.5, "k": 3},
+             "pburg": {"order": 2}, "pyule": {"order": 2}, "pcovar": {"order": 2}, "pmodcovar": {"order": 2}, "pminvar": {"order": 2}}
+
+
+def _well_posed(A, nfft):
+    """|A(f)| stays away from zero on the grid k/NFFT (a zero of A on the grid is a pole of the spectrum: no value to compare)"""
+    if A is None or len(A) == 0:
+        return True
+    z = np.exp(-2j * np.pi * np.arange(nfft) / nfft)
+    Af = 1 + sum(complex(A[i]) * z ** (i + 1) for i in range(len(A)))
+    return float(np.min(np.abs(Af))) >= 0.05
+
+
+def _coef(nrng, n, kind):
+    """kind 0 float64, 1 complex128, 2 int64, 3 object (Python ints and floats mixed), 4 float64 empty, 5 None"""
+    if kind == 5:
+        return None
+    if kind == 4:
+        return np.array([])
+    if kind == 2:
+        return nrng.integers(-3, 4, n).astype(np.int64)
+    if kind == 3:
+        v = [int(t) if i % 2 == 0 else float(t) / 4 for i, t in enumerate(nrng.integers(-3, 4, n))]
+        a = np.empty(n, dtype=object)
+        a[:] = v
+        return a
+    v = nrng.standard_normal(n) * 0.4
+    return v + 1j * nrng.standard_normal(n) * 0.4 if kind == 1 else v
+
+
+def gen_a2pform(nrng, thorough):
+    obj = lambda v: np.array(v, dtype=object)
+    # the documented / audited calls
+    yield ("a2pform", {"A": obj([1, .5]), "B": obj([.5, .5]), "rho": 2, "T": 4, "nfft": 8, "form": "list/list/kw"})
+    yield ("a2pform", {"A": obj([1, .5]), "B": obj([.5, .5]), "rho": 2., "T": 4., "nfft": 8, "form": "list/list/pos"})
+    yield ("a2pform", {"A": obj([1, .5]), "B": obj([.5, .5]), "rho": 2., "T": 4., "nfft": 4096, "form": "list/list/default"})
+    yield ("a2pform", {"A": obj([1, .5]), "B": None, "rho": 1., "T": 1., "nfft": 4096, "form": "list/list/default"})
+    yield ("a2pform", {"A": None, "B": obj([.5, .5]), "rho": 1., "T": 1., "nfft": 4096, "form": "list/list/none"})
+    yield ("a2pform", {"A": np.array([1, -3]), "B": np.array([3]), "rho": 1, "T": 3, "nfft": 3, "form": "array/array/kw"})
+    yield ("a2pform", {"A": np.array([0.2 + 0.1j]), "B": np.array([0.3j]), "rho": .5, "T": 1e5, "nfft": 2, "form": "tuple/list/kw"})
+    yield ("a2pform", {"A": np.array([]), "B": obj([.5, .5]), "rho": 1, "T": 1, "nfft": 3, "form": "array/list/kw"})
+    yield ("a2pform", {"A": np.array([]), "B": None, "rho": 3, "T": 1e-2, "nfft": 1, "form": "array/array/kw"})
+    for nfft, T, rho in ((51, 1e-2, 1e-6), (64, 1e5, 1e3)) + (((52, 1.0, 1.0), (127, 3e4, 2)) if thorough else ()):
+        for t in range(20):
+            A50 = nrng.standard_normal(50) * 0.1
+            if _well_posed(A50, nfft):
+                break
+        B30 = (nrng.standard_normal(30) + 1j * nrng.standard_normal(30)) * 0.1
+        yield ("a2pform", {"A": A50, "B": B30, "rho": rho, "T": T, "nfft": nfft, "form": "array/array/kw"})
+        yield ("a2pform", {"A": B30, "B": A50, "rho": rho, "T": T, "nfft": nfft, "form": "list/tuple/pos"} if _well_posed(B30, nfft) else
+               {"A": A50, "B": None, "rho": rho, "T": T, "nfft": nfft, "form": "tuple/array/pos"})
+    forms = ("array", "list", "tuple")
+    Ts = (4, 1e-2, 1e5, None, 1, None)
+    for i in range(60 if not thorough else 600):
+        fa, fb, call = forms[i % 3], forms[(i // 3) % 3], ("kw", "pos")[(i // 9) % 2]
+        ka = [0, 1, 2, 3, 2, 3, 1, 0, 4, 5][(i // 2) % 10]
+        kb = [2, 3, 0, 1, 5, 2, 3, 4, 0, 1][(i // 5) % 10]
+        if ka == 5 and kb == 5:
+            kb = 2
+        la, lb = int(nrng.integers(1, 7)), int(nrng.integers(1, 7))
+        B = _coef(nrng, lb, kb)
+        mx = max(0 if ka in (4, 5) else la, 0 if B is None else len(B))
+        nfft = mx + 1 if i % 3 == 0 else int(nrng.integers(mx + 1, 40))
+        for t in range(50):
+            A = _coef(nrng, la, ka)
+            if _well_posed(A, nfft):
+                break
+        else:
+            continue
+        rho = int(nrng.integers(1, 6)) if (i // 4) % 2 else float(10 ** nrng.uniform(-6, 3))
+        T = Ts[i % 6] if Ts[i % 6] is not None else float(10 ** nrng.uniform(-2, 5))
+        q = {"A": A, "B": B, "rho": rho, "T": T, "nfft": nfft, "form": "%s/%s/%s" % (fa, fb, call)}
+        if i % 20 == 19:
+            q["form"] = "%s/%s/%s" % (fa, fb, ("default", "none")[(i // 20) % 2])
+            q["nfft"] = 4096
+        yield ("a2pform", q)
